@@ -21,9 +21,10 @@ func C03_Jobs() []string {
 		"bool/bool", "bool/words", "bool/int",
 		"string/string", "string/fmt",
 		"time/time", "time/rfc3339", "time/unix-int", "time/unix-int64", "time/format", "time/formatfunc",
-		"option/withcoercer-int", "option/withcoercer-string", "option/withcoercer-ptr", "option/global-override",
+		"option/withcoercer-int", "option/withcoercer-string", "option/withcoercer-ptr", "option/withcoercer-slice", "option/global-override", "option/global-override-widths",
 		"slice/list", "slice/scalar", "slice/typed",
-		"struct/unnamed-untouched", "struct/absent-untouched", "struct/pointer",
+		"struct/unnamed-untouched", "struct/absent-untouched", "struct/pointer", "struct/pointer-prealloc",
+		"shape/parse/T2/catchint/d4", "shape/parse/T2/catchint/d5", "shape/parse/T2/int/d6", "shape/parse/T3/int/d4", "shape/parse/T3/int/d2", "shape/parse/T4/nested/d5", "shape/parse/T5/slicestruct/d4", "shape/parse/T6/ptrstruct/d2", "shape/parse/T2/slice/d2", "shape/parse/T2/ptr/d1",
 	}
 }
 func C03_Covers() []string { return []string{"success"} }
@@ -34,6 +35,22 @@ func c03ok(n int) {
 }
 
 func C03_Run(job string) {
+	if len(job) > 6 && job[:6] == "shape/" {
+		// on success every destination leaf of a nested schema equals the reference outcome
+		// (coerced input, default, or catch value), leaves the schema skipped are untouched
+		sh := buildShape(job[6:])
+		o := runReal(sh)
+		want := sh.want(o)
+		if o.empty() {
+			v.Cover("success")
+			v.Assert(len(want) == 0, "C03:unexpected-success")
+			v.Assert(sh.root().DestOK(sh.mode, sh.destPtr(o)), "C03:destination-differs-from-documented-outcome")
+			if sh.top != nil {
+				v.Assert(o.dest.U == 99, "C03:unnamed-field-written")
+			}
+		}
+		return
+	}
 	a, b, _, _ := split3(job)
 	switch a {
 	case "int":
@@ -200,6 +217,37 @@ func C03_Run(job string) {
 			z.WithCoercer(co)(s) // through Ptr the pointed-to schema is configured
 			c03ok(len(s.Parse("whatever", &d)))
 			v.Assert(d != nil && *d == k, "C03:withcoercer-through-ptr")
+		case "withcoercer-slice":
+			// a slice schema's own coercer sees every input, slices included
+			calls := 0
+			cs := func(x any) (any, error) { calls++; return []any{k, k}, nil }
+			var d []int
+			c03ok(len(z.Slice(z.Int(), z.WithCoercer(cs)).Parse([]any{1}, &d)))
+			v.Assert(calls == 1 && len(d) == 2 && d[0] == k, "C03:withcoercer-result")
+			var pd *[]int
+			ps := z.Ptr(z.Slice(z.Int()))
+			z.WithCoercer(cs)(ps)
+			c03ok(len(ps.Parse([]int{1, 2, 3}, &pd)))
+			v.Assert(calls == 2 && pd != nil && len(*pd) == 2, "C03:withcoercer-through-ptr")
+		case "global-override-widths":
+			// the width adapters (Int64, Int32, Float32) honour a global override made before the
+			// schema is used
+			old, oldF := conf.Coercers.Int, conf.Coercers.Float64
+			conf.Coercers.Int = co
+			f := v.Float64("fco")
+			v.Assume(v.And(f > -1e30, f < 1e30))
+			conf.Coercers.Float64 = func(x any) (any, error) { return f, nil }
+			var d64 int64
+			var d32 int32
+			var f32 float32
+			v.Assume(v.And(k > -1000000, k < 1000000))
+			e1 := z.Int64().Parse("whatever", &d64)
+			e2 := z.Int32().Parse(2.7, &d32)
+			e3 := z.Float32().Parse("whatever", &f32)
+			conf.Coercers.Int, conf.Coercers.Float64 = old, oldF
+			c03ok(len(e1) + len(e2) + len(e3))
+			v.Assert(d64 == int64(k) && d32 == int32(k), "C03:global-coercer-override")
+			v.Assert(v.SameBits(float64(f32), float64(float32(f))), "C03:global-coercer-override")
 		case "global-override":
 			old := conf.Coercers.Int
 			conf.Coercers.Int = co
@@ -261,6 +309,20 @@ func C03_Run(job string) {
 			c03ok(len(z.Struct(z.Schema{"i": z.Int(), "s": z.String(), "pI": z.Ptr(z.Int()), "lI": z.Slice(z.Int())}).Parse(map[string]any{"s": nil}, &d)))
 			v.Assert(d.I == i0 && d.S == "keep", "C03:absent-optional-written")
 			v.Assert(d.PI == nil && d.LI == nil, "C03:absent-pointer-or-slice-allocated")
+		case "pointer-prealloc":
+			// a destination pointer that is already set is filled in place: fields the schema does
+			// not name keep their values and the caller's pointee receives the result
+			var d Dest
+			x, keep := v.Int("x"), visible("keep", 2)
+			mine := &Inner{X: -1, Y: keep}
+			d.PN = mine
+			c03ok(len(z.Struct(z.Schema{"pN": z.Ptr(z.Struct(z.Schema{"x": z.Int()}))}).Parse(map[string]any{"pN": map[string]any{"x": x}}, &d)))
+			v.Assert(d.PN == mine && mine.X == x, "C03:present-pointer-replaced")
+			v.Assert(mine.Y == keep, "C03:unnamed-field-written")
+			pi := 5
+			d.PI = &pi
+			c03ok(len(z.Struct(z.Schema{"pI": z.Ptr(z.Int())}).Parse(map[string]any{"pI": x}, &d)))
+			v.Assert(d.PI == &pi && pi == x, "C03:present-pointer-replaced")
 		case "pointer":
 			var d Dest
 			x := v.Int("x")
